@@ -245,6 +245,98 @@ class C03(SolverSuite):
         from .oracles import C03Monitor
         return [C03Monitor()]
 
+    # -- bounded liveness on objectives whose values are finite but astronomically large (their squares overflow a double):
+    # "Solve always terminates ... for every objective".  Nothing else is judged here (the characteristics of such a search
+    # are not computable in double precision, so the stop index is not defined); the run is its own small simulation - one
+    # solver, the objective seam counting evaluations, an interval timer as the watchdog - outside the solver world, whose
+    # reference model cannot follow non-finite characteristics.
+    def gen_liveness(self, rng, run_seed):
+        N = rng.choice([1, 1, 2, 3])
+        lo, up = objectives.gen_box(rng, N)
+        return {"property": self.prop, "suite": "liveness", "format": 1, "run_seed": run_seed, "N": N, "lower": lo, "upper": up,
+                "objective": objectives.gen_spec(rng, N, lo, up), "scale": rng.choice([1e150, 1e154, 1e155, 1e160, 1e200, 1e300, -1e160, 1e307]),
+                "offset": rng.choice([0.0, 1.0, -3.0]), "value_type": rng.choice([None, None, "np.float64"]),
+                "params": {"r": G.gen_r(rng), "eps": G.gen_eps(rng, N), "itersLimit": rng.randint(2, 60), "refineSolution": False},
+                "pre": rng.choice([0, 0, rng.randint(1, 5)]), "wall_s": 6}
+
+    def check_liveness(self, plan):
+        import signal
+        import numpy as np
+        from iOpt.problem import Problem
+        from iOpt.solver import Solver
+        from iOpt.solver_parametrs import SolverParameters
+        rep = Report()
+        f = objectives.build(plan["objective"])
+        k, c, vt = float(plan["scale"]), float(plan["offset"]), plan.get("value_type")
+        calls = []
+
+        class P(Problem):
+            def __init__(self):
+                super().__init__()
+                self.name = "huge"
+                self.dimension = self.numberOfFloatVariables = plan["N"]
+                self.numberOfDisreteVariables = 0
+                self.numberOfObjectives, self.numberOfConstraints = 1, 0
+                self.floatVariableNames = np.array([str(i) for i in range(plan["N"])])
+                self.lowerBoundOfFloatVariables = np.array(plan["lower"], dtype=np.double)
+                self.upperBoundOfFloatVariables = np.array(plan["upper"], dtype=np.double)
+
+            def Calculate(self, point, functionValue):
+                y = [float(v) for v in point.floatVariables]
+                v = k * (f(y) + c)
+                calls.append((tuple(y), v))
+                functionValue.value = np.float64(v) if vt == "np.float64" else v
+                return functionValue
+        fired = []
+
+        def on_alarm(signum, frame):
+            fired.append(len(calls))
+            raise core.WatchdogStop("wall watchdog: Solve did not return within %s s" % plan["wall_s"])
+        pr = plan["params"]
+        solver = Solver(P(), SolverParameters(eps=pr["eps"], r=pr["r"], itersLimit=pr["itersLimit"], refineSolution=False))
+        old = signal.signal(signal.SIGALRM, on_alarm)
+        signal.setitimer(signal.ITIMER_REAL, float(plan["wall_s"]))
+        raised = None
+        try:
+            try:
+                if plan.get("pre"):
+                    solver.DoGlobalIteration(int(plan["pre"]))
+            except core.WatchdogStop:
+                raise
+            except BaseException as e:       # (a refusal to go on is not a hang; Solve is what the property speaks about)
+                raised = type(e).__name__
+            solver.Solve()
+        except core.WatchdogStop:
+            pass
+        finally:
+            signal.setitimer(signal.ITIMER_REAL, 0.0)
+            signal.signal(signal.SIGALRM, old)
+        if fired:
+            rep.violations.append(core.Violation(self.prop, "no_termination", "objective values of magnitude %g: Solve was still running after %s s "
+                                                 "of wall time with %d evaluations made (itersLimit=%d); it only came back because the watchdog "
+                                                 "interrupted it" % (abs(k), plan["wall_s"], fired[0], pr["itersLimit"]), "Solve"))
+        elif len(calls) > max(pr["itersLimit"], int(plan.get("pre") or 0)) + 1:
+            rep.violations.append(core.Violation(self.prop, "budget", "objective values of magnitude %g: %d evaluations, itersLimit=%d"
+                                                 % (abs(k), len(calls), pr["itersLimit"]), "Solve"))
+        rep.probes["liveness_runs_on_huge_values"] += 1
+        rep.probes["liveness_runs_where_dogloballteration_refused"] += int(raised is not None)
+        rep.n_ops = 2
+        rep.digest = core.short_hash([(y, core.fhex(v)) for y, v in calls] + [bool(fired)])
+        rep.sig = rep.digest
+        rep.nontrivial = rep.digest if len(calls) >= 2 else None
+        return rep
+
+    def check(self, plan):
+        if plan.get("suite") == "liveness":
+            return self.check_liveness(plan)
+        return super().check(plan)
+
+    def cases(self, rng, tier, run_seed, idx=0):
+        if idx % 50 == 7:
+            yield self.gen_liveness(rng, run_seed)
+            return
+        yield self.gen_plan(rng, tier, run_seed)
+
     def gen_plan(self, rng, tier, run_seed):
         L = rng.randint(5, 120) if rng.random() < 0.85 else rng.randint(120, 500 if tier == "quick" else 2000)
         spec = G.gen_actor(rng, max_iters=L, refine=(rng.random() < 0.15), small_iters_prob=0.2)
